@@ -232,6 +232,9 @@ def c01(ctx):
     mc_vm(ctx, "refine", cap_texts(sample, hi_cap=3 if quick else 4))
     # (2) the binding: every (program, text) of the scope through the real code
     ctx.replay("C01-exhaustive", cases, FIELDS["C01"])
+    # whole file / line / word: transcribed from the engine (the documents are silent about starts inside a unit); the
+    # expectation is firm, and compared, only on texts where a file, line or word really starts at the attempt
+    ctx.replay("C01-whole-units", ctx.gen_cases("C03W"), FIELDS["C01"])
     # (2b) seeded random programs beyond the structured scope (any nesting up to 9 nodes)
     rc = random_cases(ctx.seed, 400 if quick else 4000, with_caps=False)
     rexps, _, rc = vm_oracle(ctx, "random", rc, max_steps=20000, invariants=("MatchWF", "NoStuck", "StepBound"), drop_expensive=True)
@@ -994,6 +997,13 @@ def reader_plan(tier):
         # several commands on one file: every command reads the file as it is then
         runs.append({"size": s, "src": "replace all 'z9' with 'Q' find all 'z9'", "mode": "NOTHING"})
         runs.append({"size": s, "src": "replace all 'z9' with 'Q' find all 'xy' replace all 'c' with ''", "mode": "NEW"})
+    for s in ([6145] if tier == "quick" else [4500, 6145, 9000]):
+        # alternatives that each read ahead beyond the first window and fail: several far-back seeks to the start in one
+        # attempt, the last alternative then has to read the right bytes again
+        runs.append({"size": s, "src": "find all (file start 'ab' exactly 4100 any 'QQ') or (file start 'ab c' exactly 4200 any 'QQ') "
+                                       "or (file start exactly 4320 any 'ab c')", "mode": "NOTHING"})
+        runs.append({"size": s, "src": "find all (file start 'ab c' = tag exactly 4100 any 'QQ' tag) or (file start exactly 4200 any = u 'QQ') "
+                                       "or (file start at least 4400 any fewest 'z9')", "mode": "NOTHING"})
     for s in ([4097] if tier == "quick" else [1, 2, 4097, 8193]):
         # reads that ask for more bytes than are left (a negated literal near the end of the file)
         runs.append({"size": s, "src": "find all not 'qqq'", "mode": "NOTHING"})
